@@ -9,7 +9,7 @@ id="$1"; n="$2"; pkg="$3"; tname="$4"; shift 4; tiers="${*:-quick}"
 export GOFLAGS=-mod=mod GOPROXY=off GOSUMDB=off GOTOOLCHAIN=local CGO_ENABLED=0
 src="/tmp/seed-$id-out"; dst="/verif/seeded/$id-${SEED_DST:-$n}"; wt="/tmp/confirm-$id-$n-$$"
 mkdir -p "$dst/demo"; cp "$src/patch$n.diff" "$dst/patch.diff"; cp -r "$src/demo$n/." "$dst/demo/"; cp "$src/meta$n.json" "$dst/meta.json"
-git -C /repo worktree add -q --detach "$wt" HEAD || exit 2
+for try in 1 2 3 4 5; do git -C /repo worktree add -q --detach "$wt" HEAD 2>/dev/null && break; sleep $((RANDOM % 5 + 1)); done; [ -d "$wt" ] || { echo "cannot create worktree"; exit 2; }
 trap 'git -C /repo worktree remove --force "$wt" >/dev/null 2>&1' EXIT
 log="$dst/confirm.txt"; : > "$log"
 say() { echo "$*" | tee -a "$log"; }
